@@ -443,11 +443,18 @@ def hist_memo(rng, cfg, g: G, meta, n_dicts=4):
     for o in fam:
         P.evaluate(root, o)
         first = len(P.ops) - 1
-        kind = rng.choice(["exact", "extra", "perm"])
+        kind = rng.choice(["exact", "extra", "perm", "switch_default"])
         o2 = copy.deepcopy(o)
         if kind == "extra":
             o2["ZZ9"] = rng.choice(SCALARS)
             o2["ZY"] = {"W": 1}
+        elif kind == "switch_default":
+            # a library switch spelled out with the value it has anyway: nothing the results depend on changed
+            if "LABREA" in o2:
+                kind = "exact"
+            else:
+                o2["LABREA"] = rng.choice([{"EFFECTS": {"DISABLED": False}}, {"CACHE": {"DISABLED": False}},
+                                           {"LOGGING": {"DISABLED": False}}, {"CACHE": {"DISABLE": False}, "EFFECTS": {"DISABLED": False}}])
         P.ops.append({"op": "evaluate", "n": root, "o": sort_json(o2) if kind != "perm" else _permute(o2, rng),
                       "unsorted": kind == "perm"})
         repeats.append((first, len(P.ops) - 1, kind))
